@@ -404,8 +404,10 @@ func (r *runner) shrink(o Outcome) Outcome {
 		h = h[:o.At+1]
 	}
 	budget := 600
+	deadline := time.Now().Add(25 * time.Second) // a wedged implementation makes every attempt slow
 	try := func(cand []Zs) bool {
-		if budget <= 0 {
+		if budget <= 0 || time.Now().After(deadline) {
+			budget = 0
 			return false
 		}
 		budget--
@@ -574,7 +576,24 @@ func Main(cfg Config) {
 		work = append(work, src{cfg.Gen(rng.Fork(), *tier, i), fmt.Sprintf("gen:%d", i)})
 	}
 
+	// Once the run has failed there is no point in collecting hundreds of further failing
+	// histories (a broken implementation can make each of them slow): stop generating after
+	// maxFailing failing histories or when the wall-clock budget of the tier is used up.
+	const maxFailing = 12
+	wallBudget := map[string]time.Duration{"quick": 6 * time.Minute, "thorough": 100 * time.Minute}[*tier]
+	if wallBudget == 0 {
+		wallBudget = 6 * time.Minute
+	}
+	stopped := ""
 	for _, w := range work {
+		if len(res.Violations)+len(res.Disagreements) >= maxFailing {
+			stopped = fmt.Sprintf("stopped after %d failing histories", maxFailing)
+			break
+		}
+		if time.Since(start) > wallBudget {
+			stopped = fmt.Sprintf("wall-clock budget of the %s tier (%s) used up after %d of %d histories", *tier, wallBudget, res.Histories, len(work))
+			break
+		}
 		o, trace, err := r.runOne(w.h, false)
 		if err != nil {
 			res.Error = err.Error()
@@ -636,6 +655,12 @@ func Main(cfg Config) {
 	}
 	if cfg.Extra != nil {
 		res.Extra = cfg.Extra()
+	}
+	if stopped != "" {
+		if res.Extra == nil {
+			res.Extra = map[string]any{}
+		}
+		res.Extra["stopped_early"] = stopped
 	}
 	res.WallS = time.Since(start).Seconds()
 	b, _ := json.MarshalIndent(res, "", " ")
